@@ -12,7 +12,14 @@ attacker on the path.  Monitors:
  (c) handler.connect / membership in ctxt.connections / server-side CONNECTED only if
      the server was offered a datagram from that address which the monitor itself can
      open with that connection's key to a CHALLENGE_RESP carrying the token it issued.
+     Challenge responses under the right key carry every one-bit alteration of the issued
+     token as a 64-bit integer and issued + m * 2**k (any sign): none is "the token it issued".
+ (b') honest handshakes under a clock that moves on with every read (the virtual clock
+     stands in for `time` in EVERY library module), the arrival of the client hello aligned
+     so that a whole second of time() / monotonic() / perf_counter() passes between any two
+     consecutive clock reads made while the hello is being answered: (b) still holds.
 """
+import math
 import struct
 from io import BytesIO
 
@@ -73,6 +80,15 @@ class Session(object):
         self.offered = {}           # addr -> list of datagrams offered to the server
         w.offer_hooks.append(lambda addr, d, origin: self.offered.setdefault(addr, []).append(d))
         w.handler.on["connect"] = [self.on_connect]
+        # the virtual clock stands in for `time` in every library module that imported it (the engine patches the three it knows)
+        import sys as _sys
+        import time as _real_time
+        self._time_patched = []
+        for _name, _mod in list(_sys.modules.items()):
+            if (_name == "mpgameserver" or _name.startswith("mpgameserver.")) and _mod is not None and getattr(_mod, "time", None) is _real_time:
+                _mod.time = w.clock
+                self._time_patched.append(_mod)
+        self._real_time = _real_time
         self.other_root = EllipticCurvePrivateKey.new()      # a different server / the attacker's root key
         self.attacker_eph = EllipticCurvePrivateKey.new()
         self.n = 0
@@ -81,7 +97,12 @@ class Session(object):
 
     def close(self):
         self.crypto.ecdh_client = self._orig_ecdh
-        self.w.stop()
+        self.w.clock.read_advance = 0.0
+        try:
+            self.w.stop()
+        finally:
+            for _mod in self._time_patched:
+                _mod.time = self._real_time
 
     def viol(self, mech, msg):
         self.c.inc("viol:" + mech)
@@ -97,14 +118,17 @@ class Session(object):
     def check_promotion(self, client, where):
         key, token = client.session_key_bytes, client.token
         ok = False
+        other_tokens = []
         for d in self.offered.get(client.addr, []):
             dec = L.decode_datagram(d, key)
             if dec.ok and dec.form == "gcm" and dec.ptype == 3 and dec.count == 1:
                 try:
                     msg = self.C.Serializable.loadb(dec.msgs[0][2])
-                    if type(msg).__name__ == "HandshakeClientChallengeResponseMessage" and msg.token == token:
-                        ok = True
-                        break
+                    if type(msg).__name__ == "HandshakeClientChallengeResponseMessage":
+                        if msg.token == token:
+                            ok = True
+                            break
+                        other_tokens.append(msg.token)
                 except Exception:
                     pass
         if ok:
@@ -112,6 +136,10 @@ class Session(object):
         else:
             self.viol("promoted-without-proof-of-key",
                       "%s for %s although no datagram from that address opens under the connection's key to a CHALLENGE_RESP with its token" % (where, client.addr))
+            if other_tokens:
+                self.viol("promoted-on-token-not-issued",
+                          "%s for %s: the server issued token %r (0x%X) and the only challenge responses that open under the connection's key carry %s" % (
+                              where, client.addr, token, token, ", ".join("%r (0x%X)" % (t, t & 0xFFFFFFFFFFFFFFFF) if isinstance(t, int) else repr(t) for t in other_tokens[:3])))
 
     # ----- (a) what did the client accept
     def check_client(self, cl, pinned):
@@ -216,9 +244,52 @@ class Session(object):
                 self.c.inc("second_sessions_on_same_client_object")
             cl.hello_seen = None
         cb0 = len(cl.connect_cb)
+        ph = attack.get("clock_phase")
+        if ph:
+            # the tick in which the client hello arrives took a little longer (a forward jump of less than a second), so that the
+            # next whole second of the named clock comes `lead` seconds after the arrival; from the arrival on the clock moves on
+            # by `step` with every read, as a real clock does.  Every read until the answer is on the wire is recorded.
+            clock, st = w.clock, {"reads": []}
+            off = {"time": 0.0, "monotonic": clock.monotonic() - clock.now, "perf_counter": clock.perf_counter() - clock.now}[ph["which"]]
+            lead = ph["lead"]
+            plain_read = clock._read
+
+            def recording_read():
+                t = plain_read()
+                if "t_wire" not in st:
+                    st["reads"].append(t)
+                return t
+
+            def on_offer(a, d, origin):
+                if a == addr and len(d) >= 20 and d[12] == 1 and "t_off" not in st:
+                    st["boundary"] = math.ceil(clock.now + off + lead) - off
+                    clock.now = st["boundary"] - lead
+                    clock.read_advance = ph["step"]
+                    clock._read = recording_read
+                    st["t_off"] = clock.now
+
+            def on_wire(direction, a, d, client, n):
+                if direction == "s2c" and a == addr and len(d) >= 20 and d[12] == 2 and "t_off" in st and "t_wire" not in st:
+                    st["t_wire"] = clock.now
+            w.offer_hooks.append(on_offer)
+            w.wire_hooks.append(on_wire)
         cl.connect()
         before_events = self.c.get("server_connect_events", 0)
         w.step(attack.get("ticks", 8))
+        if ph:
+            clock.read_advance = 0.0
+            clock.__dict__.pop("_read", None)
+            w.offer_hooks.remove(on_offer)
+            w.wire_hooks.remove(on_wire)
+            if "t_wire" in st:
+                self.c.inc("hellos_answered_under_a_clock_that_advances_per_read")
+                ts = st["reads"]
+                attack["read_times"] = [t - st["t_off"] for t in ts]
+                for i in range(len(ts) - 1):
+                    # (two consecutive reads of the same tick: nothing but the reads themselves moved the clock between them)
+                    if ts[i] < st["boundary"] <= ts[i + 1] and ts[i + 1] - ts[i] < 1.5 * ph["step"]:
+                        attack["crossed_gap"] = i
+                        self.c.inc("hellos_answered_with_a_whole_second_between_two_consecutive_reads_of_" + ph["which"])
         for extra in attack.get("then", []):
             extra(cl)
             w.step(4)
@@ -253,6 +324,10 @@ class Session(object):
             conn = cl.udp.conn
             if sconn is None or not keyed:
                 self.viol("honest-handshake-failed", "undisturbed handshake did not complete (client keyed=%s, server promoted=%s)" % (keyed, sconn is not None))
+                pend = w.ctxt.temp_connections.get(addr)
+                if keyed and sconn is None and pend is not None and pend.session_key_bytes is not None and pend.session_key_bytes != conn.session_key_bytes:
+                    self.viol("keys-differ", "after an honest handshake the client is CONNECTED with a key the server does not hold: the server's pending "
+                                             "connection for %s derived a different key (tokens: client %r, server %r)" % (addr, conn.token, pend.token))
             else:
                 self.c.inc("honest_handshakes")
                 if conn.session_key_bytes != sconn.session_key_bytes or len(conn.session_key_bytes) != 16:
@@ -555,10 +630,10 @@ def run_shard(cfg):
         S.handshake({"name": "client-pinned-to-foreign-key", "must_fail": "client", "judge_pinned": False}, pinned=True,
                     pinned_key=S.other_root.getPublicKey())
         # --- challenge attacks at the server
-        def challenge_attack(name, make):
+        def challenge_attack(name, make, variant=None):
             def fn(d, cl):
                 return make(d, cl)
-            S.handshake({"name": "challenge:" + name, "filter": replace_filter("c2s", 3, fn), "must_fail": "server", "ticks": 10})
+            S.handshake({"name": "challenge:" + name, "filter": replace_filter("c2s", 3, fn), "must_fail": "server", "ticks": 10, "variant": variant})
 
         def with_token(cl, token):
             m = C.HandshakeClientChallengeResponseMessage()
@@ -578,6 +653,63 @@ def run_shard(cfg):
         challenge_attack("app-message-typed-challenge", lambda d, cl: [(A.seal(cl.udp.conn.session_key_bytes, "c2s", 3, 2, 1, 0,
                                                                         [(2, 6, b"hello"), (3, 6, b"world")], now(), count=2), "forged:app-in-challenge")])
         challenge_attack("dropped", lambda d, cl: None)
+        # --- right key, a token that is NOT the issued one but aliases it: every one-bit alteration of the issued token written as a
+        #     64-bit integer, the issued token plus/minus a multiple of 2**k (what a truncating / sign-extending / widening comparison
+        #     would take for the same value), its negation and complement.  Striped over the shards; own random stream
+        n_before_extra = S.n
+        r2 = rng("C02-extra", cfg["seed"], cfg["shard"])
+        alias = [("bit-%d" % bit, lambda t, bit=bit: t ^ (1 << bit)) for bit in range(63)]
+        for k in (8, 16, 24, 31, 32, 33, 40, 48, 56):
+            alias.append(("plus-2^%d" % k, lambda t, k=k: t + (1 << k)))
+            alias.append(("minus-2^%d" % k, lambda t, k=k: t - (1 << k)))
+            alias.append(("multiple-of-2^%d" % k, lambda t, k=k: t + r2.choice((-1, 1)) * r2.randint(2, (1 << (62 - k)) - 1) * (1 << k)))
+        alias += [("negated", lambda t: -t), ("complement", lambda t: ~t), ("sign-extended-from-bit-30", lambda t: t | ~0x3FFFFFFF)]
+
+        def aliased(nm, f):
+            def make(d, cl):
+                tok = cl.udp.conn.token
+                other = f(tok)
+                if other == tok or not (-(1 << 63) <= other < (1 << 63)):
+                    return [(d, "honest")]
+                out["counters"].inc("challenges_right_key_aliased_token")
+                return [(A.seal(cl.udp.conn.session_key_bytes, "c2s", 3, 2, 1, 0, [(2, 3, with_token(cl, other))], now()), "forged:right-key-aliased-token")]
+            return make
+        for nm, f in alias[shard::nshards]:
+            challenge_attack("right-key-aliased-token:" + nm, aliased(nm, f), variant=nm)
+        # --- (b') honest handshakes while a whole second of one of the process's clocks passes.  The clock moves on by 100-200 us with
+        #     every read; the arrival of the client hello is aligned so that the next whole second of time() / monotonic() /
+        #     perf_counter() lies between the k-th and the k+1-th read after it, for EVERY k up to the answer (the first handshake
+        #     of a sweep tells when the reads are made; handshakes are replicas of each other, and what was crossed is measured)
+        for which in ("time", "monotonic", "perf_counter"):
+            step = r2.uniform(1e-4, 2e-4)
+
+            def phased(lead, variant):
+                att = {"name": "clock-phase:whole-second-of-%s-between-two-reads" % which, "honest": True, "ticks": 8, "variant": variant,
+                       "clock_phase": {"which": which, "step": step, "lead": lead}}
+                S.handshake(att)
+                return att
+            covered = set()
+            rel = []
+            for attempt in (-2, -1):
+                # (what preceded the first one may make it differ from its successors: the second one is the reference)
+                att = phased(0.5 * step, attempt)
+                rel = att.get("read_times") or rel
+                if "crossed_gap" in att:
+                    covered.add(att["crossed_gap"])
+            is_gap = lambda i: i + 1 < len(rel) and rel[i + 1] - rel[i] < 1.5 * step
+            i = 0
+            while i + 1 < len(rel) and i < 200:
+                if is_gap(i) and i not in covered:
+                    att = phased((rel[i] + rel[i + 1]) / 2, i)
+                    rel = att.get("read_times") or rel
+                    if "crossed_gap" in att:
+                        covered.add(att["crossed_gap"])
+                i += 1
+            gaps = [i for i in range(len(rel) - 1) if is_gap(i)]
+            out["counters"].inc("clock_reads_between_hello_and_answer", len(rel))
+            if len(gaps) >= 4 and set(gaps) <= covered:
+                out["counters"].inc("clock_phase_sweeps_covering_every_read_gap_of_the_answer:" + which)
+        n_extra = S.n - n_before_extra
 
         # --- two handshakes pending at once: an authenticated peer echoes the OTHER pending connection's token
         #     (it can read it from that connection's plaintext server hello)
@@ -668,7 +800,7 @@ def run_shard(cfg):
                     plan_.append((direction, ptype, pos, how))
         mine = plan_[shard::nshards]
         r.shuffle(mine)
-        left = max(0, budget - S.n)
+        left = max(0, budget + n_extra - S.n)          # (the alias / clock-phase handshakes come on top of the budget)
         rounds = cfg.get("rounds", 1)
         if rounds > 1:
             # thorough: other stripes too, so that every position is mutated for several sessions (fresh keys each time)
@@ -698,7 +830,11 @@ def finish(tier, seed, results):
     inconclusive = []
     need(m["counters"], ["honest_handshakes", "root_key_signatures", "client_key_derivations", "client_params_in_signed_set",
                          "signature_verified_independently", "promotions_with_proof", "post_handshake_rewrapped_hellos", "retries_on_same_client_object", "second_sessions_on_same_client_object", "plaintext_challenges_after_unanswered_hello", "hello_bodies_under_other_type_ids", "key_agreements_checked", "lingering_clients_after_rejected_hello", "slow_handshakes_with_late_duplicate_hello", "client_left_unconnected",
-                         "mutations_type1", "mutations_type2", "mutations_type3", "server_connect_events", "concurrent_pending_pairs"], inconclusive)
+                         "mutations_type1", "mutations_type2", "mutations_type3", "server_connect_events", "concurrent_pending_pairs",
+                         "challenges_right_key_aliased_token", "hellos_answered_with_a_whole_second_between_two_consecutive_reads_of_time",
+                         "hellos_answered_with_a_whole_second_between_two_consecutive_reads_of_monotonic", "hellos_answered_with_a_whole_second_between_two_consecutive_reads_of_perf_counter",
+                         "clock_phase_sweeps_covering_every_read_gap_of_the_answer:time", "clock_phase_sweeps_covering_every_read_gap_of_the_answer:monotonic",
+                         "clock_phase_sweeps_covering_every_read_gap_of_the_answer:perf_counter"], inconclusive)
     cov = {
         "evaluations": m["evaluations"],
         "distinct_nontrivial": m["distinct_nontrivial"],
@@ -712,7 +848,10 @@ def finish(tier, seed, results):
         "fault_classes": ["mutate-type1", "mutate-type2", "mutate-type3", "substitute:*", "challenge:*", "network-dup/dup-late/lose x type1-3",
                           "replay-genuine-hello-of-another-session", "client-pinned-to-foreign-key",
                           "post-handshake:rewrapped-hello (other session / this session / attacker-signed) towards the connected client",
-                          "retry-same-client: connect() again on the same UdpClient after an unanswered attempt (honest and attacked)"],
+                          "retry-same-client: connect() again on the same UdpClient after an unanswered attempt (honest and attacked)",
+                          "challenge:right-key-aliased-token (one-bit alterations of the issued token as a 64-bit integer, issued +/- m*2**k, negation, complement)",
+                          "clock-phase: honest handshakes under a clock that advances 100-200 us per read, a whole second of time()/monotonic()/"
+                          "perf_counter() placed between every two consecutive reads made while the client hello is answered"],
         "samples": m["samples"],
         "counters": m["counters"],
     }
